@@ -74,6 +74,12 @@ def seeds(rng, kind):
         b = bytearray(lv3)
         put(b, offs[3], 8, 0)
         out.append(('lv3-child-is-root', bytes(b), [], False, None))
+        # a directory entry whose name has length 0 (it would be indistinguishable from its parent), a name length running off the table
+        tree = {'d1': {'x': b'1', 'e': {'y': b'2'}}, 'd2': {}, 'f': b'abc'}
+        lv3, info = RB.pack_lv3(tree)
+        for f in [f for f in info['fields'] if f[2].startswith('dir[') and f[2].endswith('.name_length') and f[2] != 'dir[/].name_length'][:3]:
+            for v in (0, 1, 0xFFFFFFFF):
+                out.append((f'lv3-{f[2]}:={v:#x}', patch(lv3, f[0], 4, v), [], False, None))
         # one file entry whose 64-bit data offset lies where the file underneath refuses to go (>= 2^63), its siblings intact: the
         # entry cannot be read, the others can
         tree = {'a.bin': b'A' * 40, 'b.bin': b'B' * 50, 'c.bin': b'C' * 60, 'd': {'e.bin': b'E' * 70}}
@@ -157,6 +163,14 @@ def seeds(rng, kind):
             img, info = sv.build(g)[:2]
             from .builders import save as SB
             out.append((f'{kind}#{t}', img, info['fields'], False, lambda image, f, v, info=info, SB=SB: SB.retarget(image, info, f[0], v)))
+            if t == 3:
+                # fixed inputs of every run: the size fields of that geometry claiming far more than the file holds
+                for f in [f for f in info['fields'] if f[2].endswith(('ivfc.lv4_size', 'dpfs.lv3_size'))]:
+                    for v in (0x7FFFFFFF, 1 << 40, 1 << 62):
+                        try:
+                            out.append((f'{kind}#3-{f[2]}:={v:#x}', SB.retarget(img, info, f[0], v), [], False, None))
+                        except Exception:
+                            pass
     elif kind == 'config':
         from pyctr.type.config.save import ConfigSaveReader, KNOWN_BLOCKS
         c = ConfigSaveReader()
